@@ -1,5 +1,5 @@
 /- Line-protocol driver for the loop_forever automaton (C09). -/
-import Paho.Driver.Codec
+import Paho.Driver.Common
 import Paho.Model.LoopForever
 namespace Paho.Driver
 open Paho Paho.LF
